@@ -136,11 +136,7 @@ Definition tstep (st : tstate) (e : kv) : option tstate :=
   | TOther => Some st
   end.
 
-Fixpoint tfold (st : tstate) (l : kvs) : option tstate :=
-  match l with
-  | [] => Some st
-  | e :: r => match tstep st e with Some st' => tfold st' r | None => None end
-  end.
+Definition tfold := ofold tstep.
 
 (* Transport.Unmarshal on a one-element header value *)
 Definition transport_unmarshal_with (order : order_t) (s : list N) : res transport :=
@@ -156,30 +152,32 @@ Definition transport_unmarshal_with (order : order_t) (s : list N) : res transpo
 
 Definition pair_str (p : N * N) : list N := fmt_uint (fst p) ++ [DASH] ++ fmt_uint (snd p).
 
-Definition opt_item {A} (o : option A) (f : A -> list N) : list (list N) :=
-  match o with Some x => [f x] | None => [] end.
-
-Definition be4 (x : N) : list N := [(x / 16777216) mod 256; (x / 65536) mod 256; (x / 256) mod 256; x mod 256].
 
 (* Transport.Marshal *)
-Definition transport_items (t : transport) : list (list N) :=
-  [ if (t_protocol t =? 0) && (t_profile t =? 0) then K_RTP_AVP
-    else if (t_protocol t =? 1) && (t_profile t =? 0) then K_RTP_AVP_TCP
-    else if (t_protocol t =? 0) && (t_profile t =? 1) then K_RTP_SAVP
-    else if (t_protocol t =? 1) && (t_profile t =? 1) then K_RTP_SAVP_TCP
-    else [] ]
-  ++ opt_item (t_delivery t) (fun d => if d =? 0 then K_unicast else if d =? 1 then K_multicast else [])
-  ++ opt_item (t_source t) (fun v => K_source ++ [EQ] ++ v)
-  ++ opt_item (t_dest t) (fun v => K_destination ++ [EQ] ++ v)
-  ++ opt_item (t_interleaved t) (fun p => K_interleaved ++ [EQ] ++ pair_str p)
-  ++ opt_item (t_ports t) (fun p => K_port ++ [EQ] ++ pair_str p)
-  ++ opt_item (t_ttl t) (fun x => K_ttl ++ [EQ] ++ fmt_uint x)
-  ++ opt_item (t_cports t) (fun p => K_client_port ++ [EQ] ++ pair_str p)
-  ++ opt_item (t_sports t) (fun p => K_server_port ++ [EQ] ++ pair_str p)
-  ++ opt_item (t_ssrc t) (fun x => K_ssrc ++ [EQ] ++ hex_encode_upper (be4 x))
-  ++ opt_item (t_mode t) (fun m => K_mode ++ [EQ] ++ (if m =? 0 then S_play else S_record)).
+Definition profile_key (t : transport) : list N :=
+  if (t_protocol t =? 0) && (t_profile t =? 0) then K_RTP_AVP
+  else if (t_protocol t =? 1) && (t_profile t =? 0) then K_RTP_AVP_TCP
+  else if (t_protocol t =? 0) && (t_profile t =? 1) then K_RTP_SAVP
+  else if (t_protocol t =? 1) && (t_profile t =? 1) then K_RTP_SAVP_TCP
+  else [].
+Definition delivery_key (d : N) : list N := if d =? 0 then K_unicast else if d =? 1 then K_multicast else [].
+Definition ssrc_str (x : N) : list N := hex_encode_upper (be4 x).
+Definition mode_str (m : N) : list N := if m =? 0 then S_play else S_record.
 
-Definition transport_marshal (t : transport) : list N := join [SEMI] (transport_items t).
+Definition transport_kvitems (t : transport) : list item :=
+  [ (profile_key t, VBare) ]
+  ++ opt_it (t_delivery t) (fun d => (delivery_key d, VBare))
+  ++ opt_it (t_source t) (fun v => (K_source, VPlain v))
+  ++ opt_it (t_dest t) (fun v => (K_destination, VPlain v))
+  ++ opt_it (t_interleaved t) (fun p => (K_interleaved, VPlain (pair_str p)))
+  ++ opt_it (t_ports t) (fun p => (K_port, VPlain (pair_str p)))
+  ++ opt_it (t_ttl t) (fun x => (K_ttl, VPlain (fmt_uint x)))
+  ++ opt_it (t_cports t) (fun p => (K_client_port, VPlain (pair_str p)))
+  ++ opt_it (t_sports t) (fun p => (K_server_port, VPlain (pair_str p)))
+  ++ opt_it (t_ssrc t) (fun x => (K_ssrc, VPlain (ssrc_str x)))
+  ++ opt_it (t_mode t) (fun m => (K_mode, VPlain (mode_str m))).
+
+Definition transport_marshal (t : transport) : list N := render_items [SEMI] (transport_kvitems t).
 
 (* ---- Transports ---- *)
 Fixpoint all_ok {A} (l : list (res A)) : res (list A) :=
